@@ -1219,7 +1219,9 @@ fn sgr_color<'a>(mut cmds: impl Iterator<Item = &'a [u8]>) -> Option<RGBA> {
                 cmds.next().and_then(number_decode),
             ] {
                 [Some(r), Some(g), Some(b), None] | [_, Some(r), Some(g), Some(b)] => {
-                    Some(RGBA::new(r as u8, g as u8, b as u8, 255))
+                    // clamp out of range components instead of wrapping them around
+                    let clamp = |value: usize| value.min(255) as u8;
+                    Some(RGBA::new(clamp(r), clamp(g), clamp(b), 255))
                 }
                 _ => None,
             }
